@@ -99,6 +99,9 @@ corrupt = json.loads(json.dumps(ev))
 corrupt[-1]["omap"][0] += 1                      # one bookkeeping field off by one
 nacc, rej, _ = pipecheck.validate_traces("selftest_traces", [res_of(ev), res_of(corrupt), res_of(ev[:-1])])
 expect("PipelineTrace: genuine hook trace accepted, corrupted omap rejected, missing event rejected", nacc == 1 and sorted(i for i, _ in rej) == [1, 2], "%d accepted, rejected %s" % (nacc, [i for i, _ in rej]))
+for fixes, want in (('{"inout"}', False), ("{}", True)):
+  rv = tlc.run("selftest_validate", "Validate", dict(Names='{"a", "b", "c"}', Fixes=fixes), invariants=["PartitionOK", "ReturnsForQuantizedPair"], workers=8)
+  expect("Validate fixes %-10s ReturnsForQuantizedPair %s" % (fixes, "violated" if want else "holds"), ("ReturnsForQuantizedPair" in rv.violated) == want, str(rv.violated))
 # the same for the calibrator's hook (H3) and CalibTrace.tla
 import importlib.util as _iu
 _spec = _iu.spec_from_file_location("calib_props", _os.path.join(_os.path.dirname(_os.path.dirname(_os.path.abspath(__file__))), "checks", "calib_props.py"))
